@@ -91,6 +91,9 @@ class S:
     empty: bool
     valid: bool = False
     finite: frozenset[str] | None = None
+    fnd: int | None = None     # possible first characters that are not delimiters (None: derive from any/first)
+    fnd_def: bool = False      # the string definitely contains a non-delimiter character
+    nokw: bool = False         # proven not to be a Python keyword nor a member of the repository's reserved list
 
     def describe(self, t: "Tables") -> dict[str, Any]:
         return {"chars": popcount(self.any), "first": popcount(self.first), "may_be_empty": self.empty, "validated": self.valid}
@@ -100,6 +103,17 @@ class S:
 class L:
     elem: S
     maybe_empty: bool
+    head: S | None = None      # abstraction of the first element, when known better than `elem`
+    split_of: S | None = None  # the list is re.split(...) of this string (pieces in order, nothing removed or only D)
+
+
+@dataclass(frozen=True)
+class I:
+    """abstract int: sign in {'neg', 'nonneg', 'any'}"""
+    sign: str = "any"
+
+
+EITHER = ("either-str-or-int",)
 
 
 @dataclass(frozen=True)
@@ -109,8 +123,31 @@ class B:
     when_false: tuple[tuple[str, str], ...] = ()
 
 
+_RESERVED: frozenset[str] | None = None
+_DELIMS = ". _-"  # replaced by the repository's own DELIMITERS when a CharInterp is created
+
+
 def const_s(s: str) -> S:
-    return S(bits_of_str(s), bits_of_str(s[:1]), s == "", s.isidentifier(), frozenset({s}))
+    nd = [c for c in s if c not in _DELIMS]
+    return S(bits_of_str(s), bits_of_str(s[:1]), s == "", s.isidentifier(), frozenset({s}),
+             bits_of_str(nd[0]) if nd else 0, bool(nd))
+
+
+def fnd_of(x: S) -> int:
+    if x.fnd is not None:
+        return x.fnd
+    d = bits_of_str(_DELIMS)
+    if not (x.first & d) and not x.empty:
+        return x.first  # the first character is itself a non-delimiter
+    return (x.first & ~d) | (x.any & ~d)
+
+
+def fdef(x: S) -> bool:
+    """definitely contains a non-delimiter character"""
+    if x.fnd_def:
+        return True
+    d = bits_of_str(_DELIMS)
+    return not x.empty and not (x.first & d)
 
 
 def join_s(a: S | None, b: S | None) -> S:
@@ -119,14 +156,28 @@ def join_s(a: S | None, b: S | None) -> S:
     if b is None:
         return a
     fin = a.finite | b.finite if a.finite is not None and b.finite is not None and len(a.finite | b.finite) < 4000 else None
-    return S(a.any | b.any, a.first | b.first, a.empty or b.empty, a.valid and b.valid, fin)
+    return S(a.any | b.any, a.first | b.first, a.empty or b.empty, a.valid and b.valid, fin,
+             fnd_of(a) | fnd_of(b), fdef(a) and fdef(b), (a.nokw if a.nokw == b.nokw else (bool(a.nokw) and bool(b.nokw))))
 
 
 def concat_s(a: S, b: S) -> S:
+    if a.finite == frozenset({""}):
+        return b
+    if b.finite == frozenset({""}):
+        return a
     fin = None
     if a.finite is not None and b.finite is not None and len(a.finite) * len(b.finite) < 4000:
         fin = frozenset(x + y for x in a.finite for y in b.finite)
-    return S(a.any | b.any, a.first | (b.first if a.empty else 0), a.empty and b.empty, False, fin)
+    nokw = False
+    if fin is not None:
+        import keyword as _kw
+
+        nokw = not any(_kw.iskeyword(x) or x in getattr(_kw, "softkwlist", []) for x in fin) and \
+            (_RESERVED is None or not (fin & _RESERVED))
+    elif a.valid and a.finite is None and b.nokw is True:
+        nokw = "prefixed"  # type: ignore[assignment]  # prefix + non-keyword: see the recorded assumption on field_prefix
+    return S(a.any | b.any, a.first | (b.first if a.empty else 0), a.empty and b.empty, False, fin,
+             fnd_of(a) | (fnd_of(b) if not fdef(a) else 0), fdef(a) or fdef(b), nokw)
 
 
 @dataclass
@@ -144,9 +195,25 @@ class CharInterp:
         self.utils = ix.modules.get("openapi_python_client.utils")
         if self.utils is None:
             raise AnalysisError("utils module not found")
+        global _DELIMS
+        dl = ix.const_str(self.utils, ast.Name(id="DELIMITERS")) if "DELIMITERS" in self.utils.variables else None
+        if dl is None:
+            raise AnalysisError("utils.DELIMITERS not found")
+        self.D = self.t.regex_class("[" + dl + "]")
+        _DELIMS = "".join(chr(c) for c in members(self.D, 64))
+        # case mappings never turn a non-delimiter into a delimiter (needed to carry `fnd` through lower/upper)
+        nd = self.t.ALL & ~self.D
+        for exc in (self.t.lower_exc, self.t.upper_exc, self.t.cap_exc):
+            if self.t.image(nd, exc) & self.D:
+                raise AnalysisError("E6: a case mapping produces a delimiter character")
+        self.ALPHA = mk(i for i, c in enumerate(all_chars()) if c.isalpha())
+        self.DIGIT = mk(i for i, c in enumerate(all_chars()) if c.isdigit())
+        self.stores: list[tuple[str, S, str, int]] = []  # (container, key, path condition, line)
         self.TOP = S(self.t.ALL, self.t.ALL, True)
-        # assumption (recorded in evidence): prefixes are non-empty valid identifiers
-        self.PREFIX = S(self.t.ID_CONT, self.t.ID_START, False, True)
+        # assumption (recorded in evidence): field_prefix matches [A-Za-z][A-Za-z0-9_]* (the user's own configuration)
+        import string as _string
+
+        self.PREFIX = S(bits_of_str(_string.ascii_letters + _string.digits + "_"), bits_of_str(_string.ascii_letters), False, True)
         self.paths: list[Path] = []
         self._depth = 0
         self.reserved: frozenset[str] | None = None
@@ -177,7 +244,7 @@ class CharInterp:
                     paths.append(Path(f.qual, desc or "fallthrough", val, line))
                     out = join_s(out, val) if isinstance(out, S) or out is None else out
                 elif isinstance(val, L):
-                    out = val if out is None else L(join_s(out.elem, val.elem), out.maybe_empty or val.maybe_empty)
+                    out = val if out is None else self.join_any(out, val)
                 else:
                     out = val
             return out, paths
@@ -213,6 +280,37 @@ class CharInterp:
                 if isinstance(st, ast.Assign) and len(st.targets) == 1 and isinstance(st.targets[0], ast.Name):
                     env[st.targets[0].id] = self.ev(st.value, env, m)
                     nxt.append((env, cond))
+                elif isinstance(st, ast.AnnAssign) and isinstance(st.target, ast.Name):
+                    env[st.target.id] = self.ev(st.value, env, m) if st.value is not None else None
+                    nxt.append((env, cond))
+                elif isinstance(st, ast.Assign) and len(st.targets) == 1 and isinstance(st.targets[0], ast.Subscript) \
+                        and isinstance(st.targets[0].value, ast.Name):
+                    k = self.ev(st.targets[0].slice, env, m)
+                    self.ev(st.value, env, m)
+                    if isinstance(k, S):
+                        self.stores.append((st.targets[0].value.id, k, cond, st.lineno))
+                    nxt.append((env, cond))
+                elif isinstance(st, ast.Expr):
+                    self.ev(st.value, env, m)
+                    nxt.append((env, cond))
+                elif isinstance(st, (ast.Continue, ast.Raise, ast.Break)):
+                    if isinstance(st, ast.Raise) and st.exc is not None:
+                        pass
+                elif isinstance(st, ast.For):
+                    it = st.iter
+                    e2 = dict(env)
+                    if isinstance(it, ast.Call) and dotted(it.func) == "enumerate" and isinstance(st.target, ast.Tuple) \
+                            and len(st.target.elts) == 2 and all(isinstance(x, ast.Name) for x in st.target.elts):
+                        e2[st.target.elts[0].id] = I("nonneg")
+                        src = self.ev(it.args[0], env, m)
+                        e2[st.target.elts[1].id] = src.elem if isinstance(src, L) else EITHER
+                    elif isinstance(st.target, ast.Name):
+                        src = self.ev(it, env, m)
+                        e2[st.target.id] = src.elem if isinstance(src, L) else EITHER
+                    else:
+                        raise AnalysisError(f"E6: unsupported for-loop at {m.rel}:{st.lineno}")
+                    self._run(st.body, [(e2, cond)], m, rets)
+                    nxt.append((env, cond))
                 elif isinstance(st, ast.Return):
                     rets.append((self.ev(st.value, env, m), cond, st.lineno))
                 elif isinstance(st, ast.If):
@@ -239,7 +337,10 @@ class CharInterp:
         if isinstance(a, S) and isinstance(b, S):
             return join_s(a, b)
         if isinstance(a, L) and isinstance(b, L):
-            return L(join_s(a.elem, b.elem), a.maybe_empty or b.maybe_empty)
+            return L(join_s(a.elem, b.elem), a.maybe_empty or b.maybe_empty,
+                     join_s(a.head, b.head) if a.head is not None and b.head is not None else None)
+        if isinstance(a, I) and isinstance(b, I):
+            return a if a == b else I("any")
         if a == b:
             return a
         raise AnalysisError("E6: join of incompatible abstract values")
@@ -247,11 +348,51 @@ class CharInterp:
     def refine(self, env: dict[str, Any], facts: tuple[tuple[str, str], ...]) -> None:
         for var, fact in facts:
             v = env.get(var)
+            if v is EITHER or v == EITHER:
+                if fact == "int":
+                    env[var] = I("any")
+                    continue
+                if fact == "str":
+                    env[var] = v = self.TOP
+                    continue
+                if fact in ("neg", "nonneg"):
+                    continue
+                v = self.TOP if fact.startswith("first_") or fact == "nonempty" else v
+                if isinstance(v, S):
+                    env[var] = v
+            if isinstance(v, I):
+                if fact in ("neg", "nonneg"):
+                    env[var] = I(fact)
+                continue
             if not isinstance(v, S):
+                continue
+            if fact == "nonempty":
+                env[var] = replace(v, empty=False)
+                continue
+            if fact == "not_reserved":
+                env[var] = replace(v, nokw=v.nokw or "nk1")  # type: ignore[arg-type]
+                continue
+            if fact == "not_keyword":
+                env[var] = replace(v, nokw=True if v.nokw in ("nk1", True) else v.nokw)
+                continue
+            if fact == "reserved_or_keyword":
+                import keyword as _kw
+
+                rs = frozenset(self.reserved_words(None) | set(_kw.kwlist) | set(getattr(_kw, "softkwlist", [])))
+                env[var] = S(bits_of_str("".join(rs)), bits_of_str("".join(x[:1] for x in rs)), "" in rs, False, rs)
+                continue
+            if fact in ("first_alpha", "first_digit", "first_not_alpha", "first_not_digit"):
+                cls = self.ALPHA if "alpha" in fact else self.DIGIT
+                f2 = v.first & (~cls if "_not_" in fact else cls)
+                nv = replace(v, first=f2, empty=False, finite=None)
+                if not (f2 & self.D):
+                    nv = replace(nv, fnd=f2, fnd_def=True)
+                env[var] = nv
                 continue
             if fact == "identifier":
                 env[var] = S(v.any & self.t.ID_CONT, v.first & self.t.ID_START, False, True,
-                             frozenset(x for x in v.finite if x.isidentifier()) if v.finite is not None else None)
+                             frozenset(x for x in v.finite if x.isidentifier()) if v.finite is not None else None,
+                             None, v.fnd_def, v.nokw)
             elif fact.startswith("in:"):
                 pass
             elif fact == "reserved":
@@ -279,6 +420,9 @@ class CharInterp:
                     out = concat_s(out, const_s(str(v.value)))
                 elif isinstance(v, ast.FormattedValue) and v.conversion == -1 and v.format_spec is None:
                     x = self.ev(v.value, env, m)
+                    if isinstance(x, I):
+                        dig = bits_of_str("0123456789")
+                        x = S(dig | (bits_of_str("-") if x.sign != "nonneg" else 0), dig | (bits_of_str("-") if x.sign != "nonneg" else 0), False)
                     if not isinstance(x, S):
                         raise AnalysisError(f"E6: non-string in f-string {m.rel}:{n.lineno}")
                     out = concat_s(out, x)
@@ -296,24 +440,51 @@ class CharInterp:
             if isinstance(b, B):
                 return B(b.when_false, b.when_true)
             return B()
+        if isinstance(n, ast.Subscript):
+            base = self.ev(n.value, env, m)
+            if isinstance(base, S) and isinstance(n.slice, ast.Constant) and n.slice.value == 0 and isinstance(n.value, ast.Name):
+                return ("char0", n.value.id, S(base.first, base.first, False))
+            if isinstance(base, S):
+                return S(base.any, base.any, True)
+            raise AnalysisError(f"E6: unsupported subscript at {m.rel}:{n.lineno}")
+        if isinstance(n, ast.UnaryOp) and isinstance(n.op, ast.USub):
+            v = self.ev(n.operand, env, m)
+            if isinstance(v, I):
+                return I({"neg": "nonneg", "nonneg": "any", "any": "any"}[v.sign])
+            raise AnalysisError(f"E6: unsupported negation at {m.rel}:{n.lineno}")
         if isinstance(n, ast.BoolOp):
             vals = [self.ev(v, env, m) for v in n.values]
-            bs = [v if isinstance(v, B) else B() for v in vals]
+            bs = []
+            for node_, v in zip(n.values, vals):
+                if isinstance(v, B):
+                    bs.append(v)
+                elif isinstance(node_, ast.Name) and (isinstance(v, S) or v == EITHER):
+                    bs.append(B(((node_.id, "nonempty"),), ()))
+                else:
+                    bs.append(B())
             if isinstance(n.op, ast.Or):
                 # false only when all are false
                 wf: tuple = ()
                 for b in bs:
                     wf += b.when_false
-                return B((), wf)
+                wt0: tuple = ()
+                vars_ = {v_ for b in bs for (v_, f_) in b.when_true if f_ in ("reserved", "keyword")}
+                if len(vars_) == 1 and all(any(f_ in ("reserved", "keyword") for (_, f_) in b.when_true) for b in bs):
+                    wt0 = ((next(iter(vars_)), "reserved_or_keyword"),)
+                return B(wt0, wf)
             wt: tuple = ()
             for b in bs:
                 wt += b.when_true
             return B(wt, ())
+        if isinstance(n, ast.Compare) and len(n.ops) == 1 and isinstance(n.ops[0], (ast.Lt, ast.GtE)) \
+                and isinstance(n.left, ast.Name) and isinstance(n.comparators[0], ast.Constant) and n.comparators[0].value == 0:
+            t_, f_ = ((n.left.id, "neg"),), ((n.left.id, "nonneg"),)
+            return B(t_, f_) if isinstance(n.ops[0], ast.Lt) else B(f_, t_)
         if isinstance(n, ast.Compare):
             if len(n.ops) == 1 and isinstance(n.ops[0], ast.In) and isinstance(n.left, ast.Name):
                 rhs = dotted(n.comparators[0])
                 if rhs == "RESERVED_WORDS":
-                    return B(((n.left.id, "reserved"),), ())
+                    return B(((n.left.id, "reserved"),), ((n.left.id, "not_reserved"),))
             for c in [n.left, *n.comparators]:
                 self.ev(c, env, m)
             return B()
@@ -333,28 +504,47 @@ class CharInterp:
             el = self.ev(n.elt, e2, m)
             if not isinstance(el, S):
                 raise AnalysisError(f"E6: comprehension element not a string {m.rel}:{n.lineno}")
-            return L(el, it.maybe_empty)
+            hd = None
+            if it.head is not None:
+                e3 = dict(env)
+                e3[n.generators[0].target.id] = it.head
+                hd = self.ev(n.elt, e3, m)
+            return L(el, it.maybe_empty, hd if isinstance(hd, S) else None)
         if isinstance(n, ast.Call):
             return self.call(n, env, m)
         if isinstance(n, ast.Attribute):
             return ("attr", ast.unparse(n))
+        if isinstance(n, (ast.Dict, ast.List, ast.Set)) and not getattr(n, "keys", getattr(n, "elts", None)):
+            return ("container",)
         raise AnalysisError(f"E6: unsupported expression {type(n).__name__} at {m.rel}:{getattr(n, 'lineno', 0)}")
 
     def call(self, n: ast.Call, env: dict[str, Any], m: Module) -> Any:
         t = self.t
         fn = dotted(n.func)
+        r0 = self.ix.resolve(m, fn) if fn else None
+        is_repo_func = bool(r0 and r0[0] == "func")
         # method calls on abstract strings
-        if isinstance(n.func, ast.Attribute) and fn not in ("re.sub", "re.split", "re.findall", "str.__new__"):
+        if isinstance(n.func, ast.Attribute) and not is_repo_func and fn not in ("re.sub", "re.split", "re.findall", "str.__new__"):
             recv = self.ev(n.func.value, env, m)
             meth = n.func.attr
+            if isinstance(recv, tuple) and recv and recv[0] == "char0":
+                _, var, ch = recv
+                if meth == "isalpha":
+                    return B(((var, "first_alpha"),), ((var, "first_not_alpha"),))
+                if meth == "isdigit":
+                    return B(((var, "first_digit"),), ((var, "first_not_digit"),))
+                recv = ch
             if isinstance(recv, S):
                 if meth == "lower":
-                    return S(t.image(recv.any, t.lower_exc), t.image(recv.first, t.lower_exc, True), recv.empty)
+                    return S(t.image(recv.any, t.lower_exc), t.image(recv.first, t.lower_exc, True), recv.empty, False, None,
+                             t.image(fnd_of(recv), t.lower_exc, True), fdef(recv))
                 if meth == "upper":
-                    return S(t.image(recv.any, t.upper_exc), t.image(recv.first, t.upper_exc, True), recv.empty)
+                    return S(t.image(recv.any, t.upper_exc), t.image(recv.first, t.upper_exc, True), recv.empty, False, None,
+                             t.image(fnd_of(recv), t.upper_exc, True), fdef(recv))
                 if meth == "capitalize":
                     anyc = t.image(recv.any, t.lower_exc) | t.image(recv.first, t.cap_exc)
-                    return S(anyc, t.image(recv.first, t.cap_exc, True), recv.empty)
+                    return S(anyc, t.image(recv.first, t.cap_exc, True), recv.empty, False, None,
+                             t.image(fnd_of(recv), t.cap_exc, True) | t.image(fnd_of(recv), t.lower_exc, True), fdef(recv))
                 if meth in ("isupper", "islower", "isalpha", "isdigit", "startswith", "endswith"):
                     for a in n.args:
                         self.ev(a, env, m)
@@ -368,10 +558,17 @@ class CharInterp:
                         raise AnalysisError(f"E6: join over non-list {m.rel}:{n.lineno}")
                     sep = recv
                     e = arg.elem
-                    # one or more elements, separator only between elements
-                    anyb = e.any | sep.any
-                    first = e.first | (sep.first if e.empty else 0)
-                    return S(anyb, first, arg.maybe_empty or e.empty and sep.empty)
+                    if arg.split_of is not None and not (sep.any & ~self.D):
+                        # re.split pieces re-joined with delimiters: the source with delimiters inserted
+                        src = arg.split_of
+                        return S(src.any | sep.any, src.first | sep.first, src.empty and sep.empty, False, None,
+                                 fnd_of(src), fdef(src))
+                    h = arg.head or e
+                    anyb = e.any | h.any | sep.any
+                    first = h.first | (sep.first | e.first if h.empty else 0)
+                    fnd = fnd_of(h) | ((fnd_of(e) | (sep.any & ~self.D)) if not fdef(h) else 0)
+                    return S(anyb, first, arg.maybe_empty or (e.empty and h.empty and sep.empty), False, None, fnd,
+                             (not arg.maybe_empty) and fdef(h))
                 if meth == "replace" and len(n.args) == 2:
                     a, b = self.ev(n.args[0], env, m), self.ev(n.args[1], env, m)
                     if isinstance(a, S) and isinstance(b, S):
@@ -382,6 +579,17 @@ class CharInterp:
         if fn == "any" or fn == "all":
             self.ev(n.args[0], env, m)
             return B()
+        if fn == "isinstance" and len(n.args) == 2 and isinstance(n.args[0], ast.Name):
+            tn = dotted(n.args[1])
+            if tn == "int":
+                return B(((n.args[0].id, "int"),), ((n.args[0].id, "str"),))
+            if tn == "str":
+                return B(((n.args[0].id, "str"),), ((n.args[0].id, "int"),))
+            return B()
+        if fn in ("cast", "typing.cast") and len(n.args) == 2:
+            return self.ev(n.args[1], env, m)
+        if fn in ("iskeyword", "keyword.iskeyword") and n.args and isinstance(n.args[0], ast.Name):
+            return B(((n.args[0].id, "keyword"),), ((n.args[0].id, "not_keyword"),))
         if fn in ("iskeyword", "keyword.iskeyword"):
             return B()
         if fn == "str.__new__":
@@ -405,15 +613,25 @@ class CharInterp:
                 if repl.finite == frozenset({""}):
                     # deletion: the first character stays first unless it can itself be deleted
                     exposed = keep if (src.first & cls or src.empty) else 0
-                    return S(keep, (src.first & ~cls) | exposed, True if (src.empty or src.any & cls) else False)
+                    f0 = fnd_of(src)
+                    fnd = (f0 & ~cls) | ((keep & ~self.D) if f0 & cls else 0)
+                    return S(keep, (src.first & ~cls) | exposed, True if (src.empty or src.any & cls) else False, False, None,
+                             fnd, fdef(src) and not (f0 & cls))
                 return S(keep | repl.any, keep | repl.any, True)
             if fn == "re.findall":
                 if cls is None:
                     return L(S(src.any, src.any, True), True)
                 got = src.any & cls
-                return L(S(got, got, False), True)
+                head = None
+                maybe_empty = True
+                if (self.t.ALL & ~cls) == self.D:
+                    # words between delimiters: the first word starts at the first non-delimiter character
+                    f0 = fnd_of(src) & cls
+                    head = S(got, f0, False, False, None, f0, True)
+                    maybe_empty = not fdef(src)
+                return L(S(got, got, False, False, None, got & ~self.D, bool(got) and not (got & self.D)), maybe_empty, head)
             # re.split: pieces are substrings of the source (possibly empty)
-            return L(S(src.any, src.any, True), False)
+            return L(S(src.any, src.any, True), False, None, src)
         # a function of the analysed module
         r = self.ix.resolve(m, fn) if fn else None
         if r and r[0] == "func":
@@ -461,6 +679,8 @@ class CharInterp:
         if node is None:
             raise AnalysisError("RESERVED_WORDS not found in utils")
         self.reserved = frozenset(self._set_eval(node))
+        global _RESERVED
+        _RESERVED = self.reserved
         return self.reserved
 
     def _set_eval(self, n: ast.expr) -> set[str]:
